@@ -190,11 +190,27 @@ func cliSafeExpr(s string) bool {
 	return err != nil || v.BitLen() <= 130
 }
 
+// quickTokens: SmallTokens without the keyword spellings of the operators and the blank (the
+// sequences are also joined with blanks): the alphabet of the length-4 stream of the quick tier.
+var quickTokens = []string{"1", "[1]", "x", "return", "+", "<<", "2*", "(", ")", "=", "3", "\n"}
+
 func gen(tier string, r *lib.Rand, emitNow func(string)) {
 	thorough := tier == "thorough"
-	// every case is collected first, run on all cores, and emitted afterwards in order
+	// cases are collected in batches, run on all cores, and emitted afterwards in order
 	var pending []string
-	emit := func(c string) { pending = append(pending, c) }
+	flush := func() {
+		prefetch(pending, 64)
+		for _, c := range pending {
+			emitNow(c)
+		}
+		pending = pending[:0]
+	}
+	emit := func(c string) {
+		pending = append(pending, c)
+		if len(pending) >= 25000 {
+			flush()
+		}
+	}
 	toklen, smalllen, nrandtok, nscripts, nmut, nbytes, nexpr := 3, 4, 4000, 1500, 4000, 4000, 6000
 	ncliScripts, ncliSearch := 420, 260
 	if thorough {
@@ -274,8 +290,12 @@ func gen(tier string, r *lib.Rand, emitNow func(string)) {
 	}
 	// (a) every token sequence up to toklen; the reduced alphabet one longer
 	TokenSequences(toklen, func(src string) { emit("lib " + hex(src)) })
+	small := SmallTokens
+	if !thorough {
+		small = quickTokens
+	}
 	for n := toklen + 1; n <= smalllen; n++ {
-		SequencesOver(SmallTokens, n, func(src string) { emit("lib " + hex(src)) })
+		SequencesOver(small, n, func(src string) { emit("lib " + hex(src)) })
 	}
 	for i := 0; i < nrandtok; i++ {
 		emit("lib " + hex(RandomTokenSequence(r, toklen+1+r.Intn(5))))
@@ -425,11 +445,8 @@ func gen(tier string, r *lib.Rand, emitNow func(string)) {
 		}
 		addCli(searchCase(r.Chance(1, 4), !r.Chance(1, 5), p, a, d, e))
 	}
+	flush()
 	prefetch(cli, 12)
-	prefetch(pending, 64)
-	for _, c := range pending {
-		emitNow(c)
-	}
 	for _, c := range cli {
 		emitNow(c)
 	}
